@@ -343,11 +343,12 @@ Definition FrozenHashErr := OtherExn 1.
 Inductive f_res :=
 | FOkNone | FOkTok (n : nat) | FOkHash (h : Z)
 | FOkNew (items : rel) (same_obj equal : bool) (h : f_res)    (* h: hash() of the returned object: FOkHash / FRaise / FOkNone = not taken *)
+| FOkX (items : rel) (hash_same equal : bool) (member : option bool)   (* a pickle loaded in another process, see below *)
 | FRaise (e : exn).
 
 Inductive f_op :=
 | SFMutator                      (* any of __setitem__ __delitem__ update |= setdefault pop popitem clear *)
-| SFHash | SFGet (k : nat) | SFUpdated (kvs : list pair) | SFCopy | SFPickle.
+| SFHash | SFGet (k : nat) | SFUpdated (kvs : list pair) | SFCopy | SFPickle | SFXProc.
 
 (* dict.update as a map: later pairs win *)
 Definition r_map_update (r : rel) (kvs : list pair) : rel :=
@@ -387,6 +388,19 @@ Definition f_op_ok (before : rel) (op : f_op) (res : f_res) (after : rel) : bool
   | SFCopy | SFPickle =>
       match res with
       | FOkNew items _ equal h => functional items && same_set items before && equal && hash_shape_ok items h
+      | _ => false
+      end
+  | SFXProc =>
+      (* the hash is a function of the content IN THE PROCESS WHERE IT IS ASKED: a pickle loaded in a fresh
+         interpreter (other hash seed) holds the same items, is == to a FrozenDict rebuilt there from the same
+         items, hashes like it (or both raise FrozenHashError) and is found in a set holding it *)
+      match res with
+      | FOkX items same equal member =>
+          functional items && same_set items before && same && equal &&
+          match member with
+          | Some b => b && negb (existsb (fun p => is_unhashable (snd p)) before)
+          | None => existsb (fun p => is_unhashable (snd p)) before
+          end
       | _ => false
       end
   end.
